@@ -11,10 +11,11 @@ use vstd::prelude::*;
 verus! {
 /*@include shims/rt.rs @*/
 /*@include shims/try_from.rs @*/
+/*@include shims/iter_chain_c39.rs @*/
 
 pub mod env {
     use vstd::prelude::*;
-    pub use super::shim_sysapi_c39::{ResourceAddress, NonFungibleGlobalId, NonFungibleLocalId, Decimal, IndexSet};
+    pub use super::shim_sysapi_c39::{NodeId, ResourceAddress, NonFungibleGlobalId, NonFungibleLocalId, Decimal, IndexSet};
 
     /*@item radix-engine-interface/src/blueprints/account/invocations.rs :: enum ResourcePreference
     @derive Clone, Copy
@@ -29,6 +30,8 @@ pub mod env {
     @derive
     @*/
     /*@item radix-engine/src/blueprints/account/blueprint.rs :: struct AccountBlueprint
+    @*/
+    /*@item radix-engine/src/blueprints/account/blueprint.rs :: struct AccountBlueprintBottlenoseExtension
     @*/
     /*@item radix-engine/src/blueprints/account/events.rs :: enum RejectedDepositEvent
     @derive
@@ -51,7 +54,7 @@ pub mod env {
     pub enum SystemError { AssertAccessRuleFailed, Other }
     pub enum RuntimeError { ApplicationError(ApplicationError), SystemError(SystemError), Other }
     /// radix-common/src/constants/native_addresses.rs
-    pub const XRD: ResourceAddress = ResourceAddress::new_or_panic(/*@expr-after radix-common/src/constants/native_addresses.rs :: const XRD :: <<new_or_panic(>> @*/);
+    pub const XRD: ResourceAddress = ResourceAddress(NodeId(/*@expr-after radix-common/src/constants/native_addresses.rs :: const XRD :: <<new_or_panic(>> @*/));
 }
 
 /*@include shims/sysapi_c39.rs @*/
@@ -61,6 +64,7 @@ pub mod unit {
     use super::rt::*;
     use super::env::*;
     use super::shim_sysapi_c39::*;
+    use super::shim_iter_chain_c39::*;
     broadcast use super::try_from::axiom_question_mark_calls_from;
 
     // `Result::unwrap` (the R5 image of `.expect(..)`) needs `E: Debug`: EncodeError derives it in the shim.
@@ -119,46 +123,484 @@ pub mod unit {
 
     /// reads leave everything but (possibly, on Err) the open locks as it was
     pub open spec fn read_only<Y: SystemApi<RuntimeError>>(a: &Y, b: &Y, ok: bool) -> bool {
-        &&& same_world(a, b)
+        &&& b.world() == a.world()
         &&& (ok ==> b.fhandles() =~= a.fhandles() && b.khandles() =~= a.khandles())
+    }
+
+    /// C39: what lets a single guarded deposit go through
+    pub open spec fn permitted(w: World, r: ResourceAddress, badge: Option<ResourceOrNonFungible>) -> bool {
+        allowed(w.heap, r) || badge_ok(w, badge)
+    }
+    pub open spec fn all_allowed(h: Heap, bs: Seq<Bucket>) -> bool {
+        forall|i: int| 0 <= i < bs.len() ==> allowed(h, bucket_resource(#[trigger] bs[i]))
+    }
+    /// C39: what lets a guarded batch deposit go through (judged on the state BEFORE anything is deposited)
+    pub open spec fn batch_permitted(w: World, bs: Seq<Bucket>, badge: Option<ResourceOrNonFungible>) -> bool {
+        all_allowed(w.heap, bs) || badge_ok(w, badge)
+    }
+    /// the world after a refusal that refunds: nothing but the RejectedDepositEvent log entries
+    pub open spec fn refused(a: World, b: World, rejected: Seq<GhostEvent>) -> bool {
+        b.heap == a.heap && b.auth == a.auth && b.deposited == a.deposited && b.events =~= a.events + rejected
+    }
+    /// a badge is named and it is both listed and proven
+    pub open spec fn badge_ok(w: World, badge: Option<ResourceOrNonFungible>) -> bool {
+        badge matches Some(b) && listed(w.heap, b) && proven(w.auth, b)
+    }
+    /// a badge is named, it is not listed, and `e` says so
+    pub open spec fn unlisted_badge(w: World, badge: Option<ResourceOrNonFungible>, e: RuntimeError) -> bool {
+        badge matches Some(b) && !listed(w.heap, b) && e == not_a_depositor(b)
+    }
+    /// a badge is named, it is listed, but not proven
+    pub open spec fn unproven_badge(w: World, badge: Option<ResourceOrNonFungible>) -> bool {
+        badge matches Some(b) && listed(w.heap, b) && !proven(w.auth, b)
+    }
+    /// no badge is named, or the named badge is not on the list
+    pub open spec fn no_listed_badge(w: World, badge: Option<ResourceOrNonFungible>) -> bool {
+        match badge { None => true, Some(b) => !listed(w.heap, b) }
+    }
+    pub open spec fn not_a_depositor(b: ResourceOrNonFungible) -> RuntimeError {
+        account_error(AccountError::NotAnAuthorizedDepositor { depositor: b })
+    }
+
+    /// the buckets of a batch whose resource is not allowed, in batch order
+    pub open spec fn offending(h: Heap, bs: Seq<Bucket>) -> Seq<Bucket>
+        decreases bs.len()
+    {
+        if bs.len() == 0 { Seq::<Bucket>::empty() } else {
+            let p = offending(h, bs.drop_last());
+            if !allowed(h, bucket_resource(bs.last())) { p.push(bs.last()) } else { p }
+        }
+    }
+    /// one RejectedDepositEvent per refused bucket, naming its resource
+    pub open spec fn rejected_events(bs: Seq<Bucket>) -> Seq<GhostEvent> {
+        Seq::new(bs.len(), |i: int| GhostEvent::Rejected(bucket_resource(bs[i])))
+    }
+    pub proof fn lemma_offending_empty(h: Heap, bs: Seq<Bucket>)
+        ensures (offending(h, bs).len() == 0) <==> all_allowed(h, bs)
+        decreases bs.len()
+    {
+        if bs.len() > 0 {
+            lemma_offending_empty(h, bs.drop_last());
+            if all_allowed(h, bs) {
+                assert forall|i: int| 0 <= i < bs.drop_last().len() implies allowed(h, bucket_resource(#[trigger] bs.drop_last()[i])) by {
+                    assert(bs.drop_last()[i] == bs[i]);
+                }
+                assert(bs.last() == bs[bs.len() - 1]);
+            }
+            if offending(h, bs).len() == 0 {
+                assert forall|i: int| 0 <= i < bs.len() implies allowed(h, bucket_resource(#[trigger] bs[i])) by {
+                    if i < bs.len() - 1 { assert(bs.drop_last()[i] == bs[i]); }
+                }
+            }
+        }
+    }
+    /// what the `(bucket, can_be_deposited)` pairs of the first pass look like
+    pub open spec fn pairs_of(h: Heap, bs: Seq<Bucket>, ps: Seq<(&Bucket, bool)>) -> bool {
+        &&& ps.len() == bs.len()
+        &&& forall|j: int| 0 <= j < ps.len() ==> *(#[trigger] ps[j]).0 == bs[j] && ps[j].1 == allowed(h, bucket_resource(bs[j]))
+    }
+    /// the closure of the real `filter_map`, as a function: keep the bucket iff it cannot be deposited
+    pub open spec fn keep_refused<'a>() -> spec_fn((&'a Bucket, bool)) -> Option<Bucket> {
+        |p: (&'a Bucket, bool)| if !p.1 { Some(*p.0) } else { None::<Bucket> }
+    }
+    /// filter_map over the pairs with that function yields `offending`
+    pub proof fn lemma_filter_is_offending(h: Heap, bs: Seq<Bucket>, ps: Seq<(&Bucket, bool)>)
+        requires pairs_of(h, bs, ps)
+        ensures filter_map_spec(ps, keep_refused()) =~= offending(h, bs)
+        decreases bs.len()
+    {
+        if bs.len() > 0 {
+            let ps1 = ps.drop_last();
+            let bs1 = bs.drop_last();
+            assert(pairs_of(h, bs1, ps1)) by {
+                assert forall|j: int| 0 <= j < ps1.len() implies *(#[trigger] ps1[j]).0 == bs1[j] && ps1[j].1 == allowed(h, bucket_resource(bs1[j])) by {
+                    assert(ps1[j] == ps[j]);
+                }
+            }
+            assert(ps.last() == ps[ps.len() - 1]);
+            lemma_filter_is_offending(h, bs1, ps1);
+        }
+    }
+    pub proof fn lemma_rejected_push(bs: Seq<Bucket>, x: Bucket)
+        ensures rejected_events(bs.push(x)) =~= rejected_events(bs).push(GhostEvent::Rejected(bucket_resource(x)))
+    {}
+
+    // ------------------------------------------------------------------------------------------
+    // frame lemmas
+    // ------------------------------------------------------------------------------------------
+    pub proof fn lemma_frame_refl(a: Heap, bs: Seq<Bucket>)
+        ensures only_vaults_of(a, a, bs)
+    {}
+    /// frames compose: after the buckets `bs`, one more deposit of `x`
+    pub proof fn lemma_frame_step(a: Heap, b: Heap, c: Heap, bs: Seq<Bucket>, x: Bucket)
+        requires only_vaults_of(a, b, bs), only_vaults_of(b, c, seq![x])
+        ensures only_vaults_of(a, c, bs.push(x))
+    {
+        let bs2 = bs.push(x);
+        assert forall|k: KvKey| #[trigger] c.kv.contains_key(k) && !a.kv.contains_key(k) implies is_vault_key_of(k, bs2) by {
+            if b.kv.contains_key(k) {
+                assert(is_vault_key_of(k, bs));
+                let i = choose|i: int| 0 <= i < bs.len() && k == (C_VAULTS(), bucket_resource(#[trigger] bs[i]).sbor());
+                assert(bs2[i] == bs[i]);
+            } else {
+                assert(is_vault_key_of(k, seq![x]));
+                let i = choose|i: int| 0 <= i < seq![x].len() && k == (C_VAULTS(), bucket_resource(#[trigger] seq![x][i]).sbor());
+                assert(bs2[bs.len() as int] == x);
+            }
+        }
+        assert forall|k: KvKey| a.kv.contains_key(k) implies #[trigger] c.kv.contains_key(k) && c.kv[k] == a.kv[k] by {
+            assert(b.kv.contains_key(k));
+        }
+    }
+    /// a frame for a prefix of the batch is a frame for the batch
+    pub proof fn lemma_frame_prefix(a: Heap, c: Heap, bs: Seq<Bucket>, n: int)
+        requires 0 <= n <= bs.len(), only_vaults_of(a, c, bs.take(n))
+        ensures only_vaults_of(a, c, bs)
+    {
+        assert forall|k: KvKey| #[trigger] c.kv.contains_key(k) && !a.kv.contains_key(k) implies is_vault_key_of(k, bs) by {
+            assert(is_vault_key_of(k, bs.take(n)));
+            let i = choose|i: int| 0 <= i < bs.take(n).len() && k == (C_VAULTS(), bucket_resource(#[trigger] bs.take(n)[i]).sbor());
+            assert(bs[i] == bs.take(n)[i]);
+        }
+    }
+    /// vault entries, once there, stay
+    pub proof fn lemma_vault_stays(a: Heap, b: Heap, bs: Seq<Bucket>, r: ResourceAddress)
+        requires only_vaults_of(a, b, bs), vault_exists(a, r)
+        ensures vault_exists(b, r)
+    {
+        assert(b.kv.contains_key((C_VAULTS(), r.sbor())));
     }
 
     impl AccountBlueprint {
         /*@fn radix-engine/src/blueprints/account/blueprint.rs :: impl AccountBlueprint :: fn get_resource_preference
         @sig
-            requires typed(old(api).heap())
+            requires typed(old(api).world().heap)
             ensures
                 read_only(old(api), final(api), ret is Ok),
-                ret matches Ok(p) ==> p == pref(old(api).heap(), *resource_address),
+                ret matches Ok(p) ==> p == pref(old(api).world().heap, *resource_address),
                 ret matches Err(e) ==> env_error(e),
         @closure 1 := |v: AccountResourcePreferenceEntryPayload| -> (r: ResourcePreference) ensures r == v.content
         @*/
 
         /*@fn radix-engine/src/blueprints/account/blueprint.rs :: impl AccountBlueprint :: fn does_vault_exist
         @sig
-            requires typed(old(api).heap())
+            requires typed(old(api).world().heap)
             ensures
                 read_only(old(api), final(api), ret is Ok),
-                ret matches Ok(b) ==> b == vault_exists(old(api).heap(), *resource_address),
+                ret matches Ok(b) ==> b == vault_exists(old(api).world().heap, *resource_address),
                 ret matches Err(e) ==> env_error(e),
         @*/
 
         /*@fn radix-engine/src/blueprints/account/blueprint.rs :: impl AccountBlueprint :: fn get_default_deposit_rule
         @sig
-            requires typed(old(api).heap())
+            requires typed(old(api).world().heap)
             ensures
                 read_only(old(api), final(api), ret is Ok),
-                ret matches Ok(d) ==> d == default_rule(old(api).heap()),
+                ret matches Ok(d) ==> d == default_rule(old(api).world().heap),
                 ret matches Err(e) ==> env_error(e),
         @*/
 
         /*@fn radix-engine/src/blueprints/account/blueprint.rs :: impl AccountBlueprint :: fn is_deposit_allowed
         @sig
-            requires typed(old(api).heap())
+            requires typed(old(api).world().heap)
             ensures
                 read_only(old(api), final(api), ret is Ok),
-                ret matches Ok(b) ==> b == allowed(old(api).heap(), *resource_address),
+                ret matches Ok(b) ==> b == allowed(old(api).world().heap, *resource_address),
                 ret matches Err(e) ==> env_error(e),
+        @*/
+        /*@fn radix-engine/src/blueprints/account/blueprint.rs :: impl AccountBlueprint :: fn validate_badge_is_authorized_depositor
+        @sig
+            requires typed(old(api).world().heap)
+            ensures
+                read_only(old(api), final(api), ret is Ok),
+                ret matches Ok(Ok(_)) ==> listed(old(api).world().heap, *badge),
+                ret matches Ok(Err(e)) ==> !listed(old(api).world().heap, *badge)
+                    && e == (AccountError::NotAnAuthorizedDepositor { depositor: *badge }),
+                ret matches Err(e) ==> env_error(e),
+        @*/
+
+        /*@fn radix-engine/src/blueprints/account/blueprint.rs :: impl AccountBlueprint :: fn validate_badge_is_present
+        @sig
+            ensures
+                read_only(old(api), final(api), true),
+                ret is Ok ==> proven(old(api).world().auth, badge),
+                ret matches Err(e) ==> !e.is_account_error()
+                    && (e.is_assert_access_rule_failed() ==> !proven(old(api).world().auth, badge)),
+        @*/
+
+        /*@fn radix-engine/src/blueprints/account/blueprint.rs :: impl AccountBlueprint :: fn deposit_batch
+        @sig
+            requires typed(old(api).world().heap)
+            ensures
+                typed(final(api).world().heap),
+                only_vaults_of(old(api).world().heap, final(api).world().heap, buckets@),
+                final(api).world().auth == old(api).world().auth,
+                // every bucket is deposited, in order
+                ret is Ok ==> final(api).world().deposited =~= old(api).world().deposited + buckets@,
+                ret is Ok ==> forall|j: int| 0 <= j < buckets@.len() ==> vault_exists(final(api).world().heap, bucket_resource(#[trigger] buckets@[j])),
+                ret is Ok ==> final(api).fhandles() =~= old(api).fhandles() && final(api).khandles() =~= old(api).khandles(),
+                ret matches Err(e) ==> env_error(e),
+        @entry
+            let ghost bs = buckets@;
+            proof { lemma_frame_refl(api.world().heap, bs.take(0)); }
+        @loop 1 iter it
+            invariant
+                bs == buckets@,
+                typed(api.world().heap),
+                only_vaults_of(old(api).world().heap, api.world().heap, bs.take(it.index@ as int)),
+                api.world().auth == old(api).world().auth,
+                api.world().deposited =~= old(api).world().deposited + bs.take(it.index@ as int),
+                forall|j: int| 0 <= j < it.index@ ==> vault_exists(api.world().heap, bucket_resource(#[trigger] bs[j])),
+                api.fhandles() =~= old(api).fhandles() && api.khandles() =~= old(api).khandles(),
+        @before <<Self::deposit(bucket, api)>> #1
+            let ghost h1 = api.world().heap;
+            let ghost i = it.index@ as int;
+            proof {
+                assert(bs.take(i + 1) =~= bs.take(i).push(bucket));
+                assert forall|c: Heap| #[trigger] only_vaults_of(h1, c, seq![bucket]) implies
+                    only_vaults_of(old(api).world().heap, c, bs.take(i + 1)) && only_vaults_of(old(api).world().heap, c, bs)
+                    && (forall|j: int| 0 <= j < i ==> vault_exists(c, bucket_resource(#[trigger] bs[j]))) by {
+                    lemma_frame_step(old(api).world().heap, h1, c, bs.take(i), bucket);
+                    lemma_frame_prefix(old(api).world().heap, c, bs, i + 1);
+                    assert forall|j: int| 0 <= j < i implies vault_exists(c, bucket_resource(#[trigger] bs[j])) by {
+                        lemma_vault_stays(h1, c, seq![bucket], bucket_resource(bs[j]));
+                    }
+                }
+            }
+        @before <<Ok(())>> #1
+            proof { assert(bs.take(bs.len() as int) =~= bs); }
+        @*/
+
+        /*@fn radix-engine/src/blueprints/account/blueprint.rs :: impl AccountBlueprint :: fn try_deposit_or_refund
+        @sig
+            requires typed(old(api).world().heap)
+            ensures
+                typed(final(api).world().heap),
+                // whatever the outcome: only the vault entry of the bucket's resource can change
+                only_vaults_of(old(api).world().heap, final(api).world().heap, seq![bucket]),
+                final(api).world().auth == old(api).world().auth,
+                ret is Ok ==> final(api).fhandles() =~= old(api).fhandles() && final(api).khandles() =~= old(api).khandles(),
+                // C39: Ok ==> (deposited <==> allowed, or a listed badge is named and proven)
+                ret is Ok ==> (ret matches Ok(None) <==> permitted(old(api).world(), bucket_resource(bucket), authorized_depositor_badge)),
+                ret matches Ok(None) ==> final(api).world().deposited == old(api).world().deposited.push(bucket)
+                    && vault_exists(final(api).world().heap, bucket_resource(bucket)),
+                // C39: otherwise nothing is deposited and the bucket comes back untouched
+                ret matches Ok(Some(b)) ==> b == bucket && authorized_depositor_badge is None
+                    && refused(old(api).world(), final(api).world(), seq![GhostEvent::Rejected(bucket_resource(bucket))]),
+                // C39: refused and a badge is named that is not (listed and proven) ==> the call fails
+                !allowed(old(api).world().heap, bucket_resource(bucket)) && authorized_depositor_badge is Some
+                    && !badge_ok(old(api).world(), authorized_depositor_badge) ==> ret is Err,
+                // the blueprint's own refusals happen only for that reason, with nothing changed
+                ret matches Err(e) ==> (e.is_account_error() ==> !allowed(old(api).world().heap, bucket_resource(bucket))
+                    && unlisted_badge(old(api).world(), authorized_depositor_badge, e)
+                    && final(api).world() == old(api).world()),
+                ret matches Err(e) ==> (e.is_assert_access_rule_failed() ==> !allowed(old(api).world().heap, bucket_resource(bucket))
+                    && unproven_badge(old(api).world(), authorized_depositor_badge)
+                    && final(api).world() == old(api).world()),
+        @*/
+
+        /*@fn radix-engine/src/blueprints/account/blueprint.rs :: impl AccountBlueprint :: fn try_deposit_batch_or_refund
+        @sig
+            requires typed(old(api).world().heap)
+            ensures
+                typed(final(api).world().heap),
+                // whatever the outcome: only vault entries of the batch's resources can change
+                only_vaults_of(old(api).world().heap, final(api).world().heap, buckets@),
+                final(api).world().auth == old(api).world().auth,
+                ret is Ok ==> final(api).fhandles() =~= old(api).fhandles() && final(api).khandles() =~= old(api).khandles(),
+                // C39: Ok ==> (everything deposited <==> every bucket allowed, or a listed badge is named and proven)
+                ret is Ok ==> (ret matches Ok(None) <==> batch_permitted(old(api).world(), buckets@, authorized_depositor_badge)),
+                ret matches Ok(None) ==> final(api).world().deposited =~= old(api).world().deposited + buckets@
+                    && (forall|j: int| 0 <= j < buckets@.len() ==> vault_exists(final(api).world().heap, bucket_resource(#[trigger] buckets@[j]))),
+                // C39: otherwise nothing is deposited and ALL buckets come back untouched
+                ret matches Ok(Some(v)) ==> v == buckets && authorized_depositor_badge is None
+                    && refused(old(api).world(), final(api).world(), rejected_events(offending(old(api).world().heap, buckets@))),
+                // C39: a bucket is refused and a badge is named that is not (listed and proven) ==> the call fails
+                !all_allowed(old(api).world().heap, buckets@) && authorized_depositor_badge is Some
+                    && !badge_ok(old(api).world(), authorized_depositor_badge) ==> ret is Err,
+                // the blueprint's own refusals happen only for that reason, with nothing changed
+                ret matches Err(e) ==> (e.is_account_error() ==> !all_allowed(old(api).world().heap, buckets@)
+                    && unlisted_badge(old(api).world(), authorized_depositor_badge, e)
+                    && final(api).world() == old(api).world()),
+                ret matches Err(e) ==> (e.is_assert_access_rule_failed() ==> !all_allowed(old(api).world().heap, buckets@)
+                    && unproven_badge(old(api).world(), authorized_depositor_badge)
+                    && final(api).world() == old(api).world()),
+        @subst <<buckets .iter() .map(|bucket| {>> => <<{ let mut c39_pairs: Collected<(&Bucket, bool)> = Collected::new(); for bucket in c39_it: buckets.iter() invariant api.world() == old(api).world(), api.fhandles() =~= old(api).fhandles(), api.khandles() =~= old(api).khandles(), typed(api.world().heap), c39_pairs.seq().len() == c39_it.index@, pairs_of(old(api).world().heap, buckets@.take(c39_it.index@ as int), c39_pairs.seq()), { let c39_item = {>> why: Verus rejects closures capturing `&mut` (api) and has no iterator adapters; `iter().map(F).collect::<Result<Vec<_>,_>>()?` is rewritten into the loop std runs for it (F on each element in order, first Err returned, Ok payloads gathered in order); the body of F stays in place
+        @subst <<bucket .resource_address(api) .and_then(|resource_address|>> => <<(match bucket.resource_address(api) { Err(c39_e) => Err(c39_e), Ok(resource_address) =>>> why: `r.and_then(|x| e)` with a closure capturing `&mut api` is unfolded to its definition `match r { Ok(x) => e, Err(e) => Err(e) }`; the call `Self::is_deposit_allowed(&resource_address, api)` stays verbatim
+        @subst <<) .map(|can_be_deposited|>> => <<}) .map(|can_be_deposited: bool| -> (r: (&Bucket, bool)) ensures r == (bucket, can_be_deposited) {>> why: closes the unfolded match; the closure gets its Verus signature (what @closure does) and a braced body
+        @subst <<) }) .collect::<Result<Vec<_>, _>>()? .into_iter()>> => <<}) }; c39_pairs.push(c39_item?); proof { assert(buckets@.take(c39_it.index@ as int + 1) =~= buckets@.take(c39_it.index@ as int).push(*bucket)); } } proof { assert(buckets@.take(buckets@.len() as int) =~= buckets@); } proof { c39_ps = c39_pairs.seq(); } c39_pairs } .into_iter()>> why: end of the loop that stands for map+collect: `?` on each item (first Err returned), payload pushed; the gathered pairs then go through the verbatim `.into_iter().filter_map(..).collect()`
+        @before <<let offending_buckets>> #1
+            let ghost mut c39_ps: Seq<(&Bucket, bool)> = Seq::empty();
+        @before <<if offending_buckets.is_empty()>> #1
+            let ghost ob = offending_buckets@;
+            proof {
+                assert(ob == filter_map_spec(c39_ps, keep_refused()));
+                lemma_filter_is_offending(old(api).world().heap, buckets@, c39_ps);
+                lemma_offending_empty(old(api).world().heap, buckets@);
+            }
+        @loop 1 iter it
+            invariant
+                ob == offending_buckets@,
+                typed(api.world().heap),
+                api.world().heap == old(api).world().heap, api.world().auth == old(api).world().auth,
+                api.world().deposited == old(api).world().deposited,
+                api.world().events =~= old(api).world().events + rejected_events(ob.take(it.index@ as int)),
+                api.fhandles() =~= old(api).fhandles() && api.khandles() =~= old(api).khandles(),
+        @before <<Runtime::emit_event(api, event)>> #1
+            proof {
+                let i = it.index@ as int;
+                assert(ob.take(i + 1) =~= ob.take(i).push(bucket));
+                lemma_rejected_push(ob.take(i), bucket);
+            }
+        @before <<Ok(Some(buckets))>> #1
+            proof { assert(ob.take(ob.len() as int) =~= ob); }
+        @subst <<.filter_map(|(bucket, can_be_deposited)| {>> => <<.filter_map(|c39_p: (&Bucket, bool)| -> (r: Option<Bucket>) ensures r == (if !c39_p.1 { Some(*c39_p.0) } else { None::<Bucket> }) { let (bucket, can_be_deposited) = c39_p;>> why: Verus supports only plain variables as closure parameters; the tuple pattern of the parameter becomes a `let` at the start of the (verbatim) body, and the closure gets its Verus signature
+        @*/
+
+        /*@fn radix-engine/src/blueprints/account/blueprint.rs :: impl AccountBlueprint :: fn try_deposit_or_abort
+        @sig
+            requires typed(old(api).world().heap)
+            ensures
+                typed(final(api).world().heap),
+                only_vaults_of(old(api).world().heap, final(api).world().heap, seq![bucket]),
+                final(api).world().auth == old(api).world().auth,
+                // C39: Ok ==> permitted and deposited;  not permitted ==> the call fails
+                ret is Ok ==> permitted(old(api).world(), bucket_resource(bucket), authorized_depositor_badge)
+                    && final(api).world().deposited == old(api).world().deposited.push(bucket)
+                    && vault_exists(final(api).world().heap, bucket_resource(bucket))
+                    && final(api).fhandles() =~= old(api).fhandles() && final(api).khandles() =~= old(api).khandles(),
+                !permitted(old(api).world(), bucket_resource(bucket), authorized_depositor_badge) ==> ret is Err,
+                // the blueprint's own refusals: only when the deposit is not allowed, nothing deposited
+                ret matches Err(e) ==> (e.is_account_error() ==> !allowed(old(api).world().heap, bucket_resource(bucket))
+                    && final(api).world().heap == old(api).world().heap && final(api).world().deposited == old(api).world().deposited
+                    && (if authorized_depositor_badge is None { e == account_error(AccountError::DepositIsDisallowed { resource_address: bucket_resource(bucket) }) }
+                        else { unlisted_badge(old(api).world(), authorized_depositor_badge, e) })),
+                ret matches Err(e) ==> (e.is_assert_access_rule_failed() ==> !allowed(old(api).world().heap, bucket_resource(bucket))
+                    && unproven_badge(old(api).world(), authorized_depositor_badge)
+                    && final(api).world() == old(api).world()),
+        @*/
+        /*@fn radix-engine/src/blueprints/account/blueprint.rs :: impl AccountBlueprint :: fn try_deposit_batch_or_abort
+        @sig
+            requires typed(old(api).world().heap)
+            ensures
+                typed(final(api).world().heap),
+                only_vaults_of(old(api).world().heap, final(api).world().heap, buckets@),
+                final(api).world().auth == old(api).world().auth,
+                // C39: Ok ==> permitted and everything deposited;  not permitted ==> the call fails
+                ret is Ok ==> batch_permitted(old(api).world(), buckets@, authorized_depositor_badge)
+                    && final(api).world().deposited =~= old(api).world().deposited + buckets@
+                    && (forall|j: int| 0 <= j < buckets@.len() ==> vault_exists(final(api).world().heap, bucket_resource(#[trigger] buckets@[j])))
+                    && final(api).fhandles() =~= old(api).fhandles() && final(api).khandles() =~= old(api).khandles(),
+                !batch_permitted(old(api).world(), buckets@, authorized_depositor_badge) ==> ret is Err,
+                // the blueprint's own refusals: only when some bucket is not allowed, nothing deposited
+                ret matches Err(e) ==> (e.is_account_error() ==> !all_allowed(old(api).world().heap, buckets@)
+                    && final(api).world().heap == old(api).world().heap && final(api).world().deposited == old(api).world().deposited
+                    && (if authorized_depositor_badge is None { e == account_error(AccountError::NotAllBucketsCouldBeDeposited) }
+                        else { unlisted_badge(old(api).world(), authorized_depositor_badge, e) })),
+                ret matches Err(e) ==> (e.is_assert_access_rule_failed() ==> !all_allowed(old(api).world().heap, buckets@)
+                    && unproven_badge(old(api).world(), authorized_depositor_badge)
+                    && final(api).world() == old(api).world()),
+        @*/
+    }
+
+    // ------------------------------------------------------------------------------------------
+    // Bottlenose versions of the two refund methods (dispatched by AccountBlueprintBottlenoseExtension::
+    // invoke_export): a named badge that is NOT on the list no longer fails the call, it refunds
+    // ------------------------------------------------------------------------------------------
+    impl AccountBlueprintBottlenoseExtension {
+        /*@fn radix-engine/src/blueprints/account/blueprint.rs :: impl AccountBlueprintBottlenoseExtension :: fn try_deposit_or_refund
+        @sig
+            requires typed(old(api).world().heap)
+            ensures
+                typed(final(api).world().heap),
+                only_vaults_of(old(api).world().heap, final(api).world().heap, seq![bucket]),
+                final(api).world().auth == old(api).world().auth,
+                ret is Ok ==> final(api).fhandles() =~= old(api).fhandles() && final(api).khandles() =~= old(api).khandles(),
+                // C39: Ok ==> (deposited <==> allowed, or a listed badge is named and proven)
+                ret is Ok ==> (ret matches Ok(None) <==> permitted(old(api).world(), bucket_resource(bucket), authorized_depositor_badge)),
+                ret matches Ok(None) ==> final(api).world().deposited == old(api).world().deposited.push(bucket)
+                    && vault_exists(final(api).world().heap, bucket_resource(bucket)),
+                // C39: otherwise nothing is deposited and the bucket comes back untouched
+                ret matches Ok(Some(b)) ==> b == bucket && no_listed_badge(old(api).world(), authorized_depositor_badge)
+                    && refused(old(api).world(), final(api).world(), seq![GhostEvent::Rejected(bucket_resource(bucket))]),
+                // C39: refused and the named LISTED badge is not proven ==> the call fails
+                !allowed(old(api).world().heap, bucket_resource(bucket)) && unproven_badge(old(api).world(), authorized_depositor_badge) ==> ret is Err,
+                // the only refusal by error is that one, with nothing changed; no AccountError is ever raised
+                ret matches Err(e) ==> !e.is_account_error(),
+                ret matches Err(e) ==> (e.is_assert_access_rule_failed() ==> !allowed(old(api).world().heap, bucket_resource(bucket))
+                    && unproven_badge(old(api).world(), authorized_depositor_badge)
+                    && final(api).world() == old(api).world()),
+        @*/
+
+        /*@fn radix-engine/src/blueprints/account/blueprint.rs :: impl AccountBlueprintBottlenoseExtension :: fn try_deposit_batch_or_refund
+        @sig
+            requires typed(old(api).world().heap)
+            ensures
+                typed(final(api).world().heap),
+                // whatever the outcome: only vault entries of the batch's resources can change
+                only_vaults_of(old(api).world().heap, final(api).world().heap, buckets@),
+                final(api).world().auth == old(api).world().auth,
+                ret is Ok ==> final(api).fhandles() =~= old(api).fhandles() && final(api).khandles() =~= old(api).khandles(),
+                // C39: Ok ==> (everything deposited <==> every bucket allowed, or a listed badge is named and proven)
+                ret is Ok ==> (ret matches Ok(None) <==> batch_permitted(old(api).world(), buckets@, authorized_depositor_badge)),
+                ret matches Ok(None) ==> final(api).world().deposited =~= old(api).world().deposited + buckets@
+                    && (forall|j: int| 0 <= j < buckets@.len() ==> vault_exists(final(api).world().heap, bucket_resource(#[trigger] buckets@[j]))),
+                // C39: otherwise nothing is deposited and ALL buckets come back untouched
+                ret matches Ok(Some(v)) ==> v == buckets && no_listed_badge(old(api).world(), authorized_depositor_badge)
+                    && refused(old(api).world(), final(api).world(), rejected_events(offending(old(api).world().heap, buckets@))),
+                // C39: a bucket is refused and the named LISTED badge is not proven ==> the call fails
+                !all_allowed(old(api).world().heap, buckets@) && unproven_badge(old(api).world(), authorized_depositor_badge) ==> ret is Err,
+                // the only refusal by error is that one, with nothing changed; no AccountError is ever raised
+                ret matches Err(e) ==> !e.is_account_error(),
+                ret matches Err(e) ==> (e.is_assert_access_rule_failed() ==> !all_allowed(old(api).world().heap, buckets@)
+                    && unproven_badge(old(api).world(), authorized_depositor_badge)
+                    && final(api).world() == old(api).world()),
+        @subst <<buckets .iter() .map(|bucket| {>> => <<{ let mut c39_pairs: Collected<(&Bucket, bool)> = Collected::new(); for bucket in c39_it: buckets.iter() invariant api.world() == old(api).world(), api.fhandles() =~= old(api).fhandles(), api.khandles() =~= old(api).khandles(), typed(api.world().heap), c39_pairs.seq().len() == c39_it.index@, pairs_of(old(api).world().heap, buckets@.take(c39_it.index@ as int), c39_pairs.seq()), { let c39_item = {>> why: Verus rejects closures capturing `&mut` (api) and has no iterator adapters; `iter().map(F).collect::<Result<Vec<_>,_>>()?` is rewritten into the loop std runs for it (F on each element in order, first Err returned, Ok payloads gathered in order); the body of F stays in place
+        @subst <<bucket .resource_address(api) .and_then(|resource_address|>> => <<(match bucket.resource_address(api) { Err(c39_e) => Err(c39_e), Ok(resource_address) =>>> why: `r.and_then(|x| e)` with a closure capturing `&mut api` is unfolded to its definition `match r { Ok(x) => e, Err(e) => Err(e) }`; the call `AccountBlueprint::is_deposit_allowed(&resource_address, api)` stays verbatim
+        @subst <<) .map(|can_be_deposited|>> => <<}) .map(|can_be_deposited: bool| -> (r: (&Bucket, bool)) ensures r == (bucket, can_be_deposited) {>> why: closes the unfolded match; the closure gets its Verus signature (what @closure does) and a braced body
+        @subst <<) }) .collect::<Result<Vec<_>, _>>()? .into_iter()>> => <<}) }; c39_pairs.push(c39_item?); proof { assert(buckets@.take(c39_it.index@ as int + 1) =~= buckets@.take(c39_it.index@ as int).push(*bucket)); } } proof { assert(buckets@.take(buckets@.len() as int) =~= buckets@); } proof { c39_ps = c39_pairs.seq(); } c39_pairs } .into_iter()>> why: end of the loop that stands for map+collect: `?` on each item (first Err returned), payload pushed; the gathered pairs then go through the verbatim `.into_iter().filter_map(..).collect()`
+        @before <<let offending_buckets>> #1
+            let ghost mut c39_ps: Seq<(&Bucket, bool)> = Seq::empty();
+        @before <<if offending_buckets.is_empty()>> #1
+            let ghost ob = offending_buckets@;
+            proof {
+                assert(ob == filter_map_spec(c39_ps, keep_refused()));
+                lemma_filter_is_offending(old(api).world().heap, buckets@, c39_ps);
+                lemma_offending_empty(old(api).world().heap, buckets@);
+            }
+        @loop 1 iter it
+            invariant
+                ob == offending_buckets@,
+                typed(api.world().heap),
+                api.world().heap == old(api).world().heap, api.world().auth == old(api).world().auth,
+                api.world().deposited == old(api).world().deposited,
+                api.world().events =~= old(api).world().events + rejected_events(ob.take(it.index@ as int)),
+                api.fhandles() =~= old(api).fhandles() && api.khandles() =~= old(api).khandles(),
+        @before <<Runtime::emit_event(api, event)>> #1
+            proof {
+                let i = it.index@ as int;
+                assert(ob.take(i + 1) =~= ob.take(i).push(bucket));
+                lemma_rejected_push(ob.take(i), bucket);
+            }
+        @before <<Ok(Some(buckets))>> #1
+            proof { assert(ob.take(ob.len() as int) =~= ob); }
+        @loop 2 iter it
+            invariant
+                ob == offending_buckets@,
+                typed(api.world().heap),
+                api.world().heap == old(api).world().heap, api.world().auth == old(api).world().auth,
+                api.world().deposited == old(api).world().deposited,
+                api.world().events =~= old(api).world().events + rejected_events(ob.take(it.index@ as int)),
+                api.fhandles() =~= old(api).fhandles() && api.khandles() =~= old(api).khandles(),
+        @before <<Runtime::emit_event(api, event)>> #2
+            proof {
+                let i = it.index@ as int;
+                assert(ob.take(i + 1) =~= ob.take(i).push(bucket));
+                lemma_rejected_push(ob.take(i), bucket);
+            }
+        @before <<Ok(Some(buckets))>> #2
+            proof { assert(ob.take(ob.len() as int) =~= ob); }
+        @subst <<.filter_map(|(bucket, can_be_deposited)| {>> => <<.filter_map(|c39_p: (&Bucket, bool)| -> (r: Option<Bucket>) ensures r == (if !c39_p.1 { Some(*c39_p.0) } else { None::<Bucket> }) { let (bucket, can_be_deposited) = c39_p;>> why: Verus supports only plain variables as closure parameters; the tuple pattern of the parameter becomes a `let` at the start of the (verbatim) body, and the closure gets its Verus signature
         @*/
     }
 }
